@@ -10,7 +10,7 @@ import (
 func init() {
 	register(&Property{
 		ID:          "C02",
-		Explanation: "Decides structural necessary conditions of replica agreement: every writer of the commit index stores a value shown (by a dominating comparison) not to be below the current one, or is the bootstrap/launch path; the processed index is written only inside the range checks; the in-memory log is mutated (merge) only through entryLog.append behind the 'first index > committed' fail-stop; the leader commits by counting only when the entry's term equals its own term and passes r.term; a follower appends only on the matchTerm edge and commits min(lastNew, leaderCommit); every function on the apply path that advances the state machine passes the gap/term assertion (setApplied) on every normal exit; the raft core is entered from the engine only with the node's raft mutex held; the apply path contains no wall-clock, random or unordered-map-iteration dependence. Does not decide agreement over schedules.",
+		Explanation: "Decides structural necessary conditions of replica agreement: every writer of the commit index stores a value shown (by a dominating comparison) not to be below the current one, or is the bootstrap/launch path; the processed index is written only inside the range checks; the in-memory log is mutated (merge) only through entryLog.append behind the 'first index > committed' fail-stop; the leader commits by counting only when the entry's term equals its own term and passes r.term; a follower appends only on the matchTerm edge and commits min(lastNew, leaderCommit); every function on the apply path that advances the state machine passes the gap/term assertion (setApplied) on every normal exit; the raft core is entered from the engine only with the node's raft mutex held; the apply path contains no wall-clock, random or unordered-map-iteration dependence. Does not decide agreement over schedules. A freshly built progress record starts at match 0 at every constructor call site (own slot: own last index).",
 		NotCovered:  "that these mechanisms compose to agreement (Raft's proof); identical user state needs a deterministic user state machine",
 		Run:         runC02,
 	})
